@@ -140,6 +140,11 @@ func (w *vWorld) runSeqStep1(nextId *int64, r *vReq, snapEvery bool) {
 			w.Tick(order)
 			w.tr.Emit(map[string]interface{}{"e": "tock", "t": w.now})
 		}
+	case "snap":
+		// a harness-declared quiescent point inside a history that otherwise snapshots only at its end (big populations):
+		// the sequential engine has finished the previous call including its wake pass
+		w.tr.Emit(w.Snapshot())
+		return
 	case "status":
 		// role change of the whole node (C10): every db gets the new status under its shard mutexes,
 		// exactly like SLock.updateState but without the quit-leader flush waits.
